@@ -210,7 +210,7 @@ def bounded(tier, seed, procs):
         if prod[0] != "val" or got != ref:
             b2.fail(Failure("multivectors", f"what=symbolic env={env}", dict(kind="ga2s", env=repr(env)), expected="reference product", actual=outcome.describe(prod)[:200],
                             functions=["MultiVector._generic_product"]))
-    return [b, b2, b_index_tuples(tier), b_same_coefficients(tier), b_scalar_operands(tier)]
+    return [b, b2, b_index_tuples(tier), b_same_coefficients(tier), b_scalar_operands(tier), b_default_spaces(tier)]
 
 
 def b_index_tuples(tier):
@@ -258,6 +258,54 @@ def b_index_tuples(tier):
                 if r[0] != "exc":
                     b.fail(Failure("index-tuples", f"what=repeated-index-accepted dim={dim}", dict(kind="rep", dim=dim), expected="an error", actual=outcome.describe(r)[:100],
                                    functions=["Space.bits_and_sign"]))
+    return b
+
+
+def b_default_spaces(tier):
+    """Spaces built WITHOUT an explicit metric (Space(n), get_euclidean_space(n), MultiVector(numpy vector)): the Euclidean metric,
+    exact arithmetic on Fraction and large integer coefficients."""
+    import numpy as np
+    from pymbolic.geometric_algebra import MultiVector, Space, get_euclidean_space
+    b = BoundedRun("default-spaces", rule="spaces with the default metric in dimensions 0..4 (Space(n), get_euclidean_space(n), and the space a numpy vector gets): all pairs of "
+                   "basis blades scaled by Fraction(1, 3) and by 2**40 + 1: every product (*, ^, |, <<, >>, scalar_product) equals the list-based reference with the metric "
+                   "(1, ..., 1) EXACTLY (value and exact type: a Fraction stays a Fraction, an int an int); norm_squared; inverse of a Fraction blade times the blade is exactly 1",
+                   bound="5 dims x 3 constructions x 4^dim blade pairs x 2 scalings", functions=["Space.__init__", "get_euclidean_space", "MultiVector._generic_product", "_shared_metric_coeff"])
+    sel = {"mul": None, "xor": lambda a, c, r: r == a + c, "or": lambda a, c, r: r == abs(a - c), "lshift": lambda a, c, r: r == c - a, "rshift": lambda a, c, r: r == a - c}
+    import operator
+    ops = {"mul": operator.mul, "xor": operator.xor, "or": operator.or_, "lshift": operator.lshift, "rshift": operator.rshift}
+
+    def exact(u, v):
+        return set(u) == set(v) and all(type(u[k]) is type(v[k]) and u[k] == v[k] for k in u)
+    for dim in range(0, 5 if tier == "thorough" else 4):
+        g = (1,) * dim
+        makers = [("Space(n)", lambda: Space(dim)), ("get_euclidean_space", lambda: get_euclidean_space(dim))]
+        if dim:
+            makers.append(("numpy-vector", lambda: MultiVector(np.array([1] + [0] * (dim - 1), dtype=object)).space))
+        for mname, mk in makers:
+            spr = outcome.run(mk)
+            if spr[0] != "val":
+                b.fail(Failure("default-spaces", f"what=space-construction how={mname} dim={dim}", dict(kind="ga-default", how=mname, dim=dim), expected="a space", actual=outcome.describe(spr)[:200],
+                               functions=["Space.__init__"]))
+                continue
+            sp = spr[1]
+            for wname, w1, w2 in (("fraction", Fraction(1, 3), Fraction(-2, 5)), ("big-int", 2 ** 40 + 1, 3 ** 30)):
+                for xb, yb in itertools.product(range(2 ** dim), repeat=2):
+                    x_, y_ = MultiVector({xb: w1}, sp), MultiVector({yb: w2}, sp)
+                    for name, op in ops.items():
+                        real = outcome.run(lambda: to_ref(op(x_, y_)))
+                        ref = ref_mul(to_ref(x_), to_ref(y_), g, sel[name])
+                        b.case((mname, dim, wname, xb, yb, name), sample=dict(how=mname, dim=dim, weights=wname, a=xb, b=yb, product=name))
+                        if not (real[0] == "val" and exact(real[1], ref)):
+                            b.fail(Failure("default-spaces", f"what={name} how={mname} dim={dim} weights={wname} a={xb} b={yb}", dict(kind="ga-default", how=mname, dim=dim, weights=wname, a=xb, b=yb, op=name),
+                                           expected=repr(ref)[:150], actual=outcome.describe(real)[:150], functions=["MultiVector._generic_product", "_shared_metric_coeff", "Space.__init__"]))
+                    if wname == "fraction":
+                        r = outcome.run(lambda: (x_.norm_squared(), to_ref(x_.inv() * x_)))
+                        b.case((mname, dim, "inv", xb))
+                        # in a Euclidean space the squared norm of a scaled basis blade is the square of its coefficient
+                        ok = r[0] == "val" and type(r[1][0]) is Fraction and r[1][0] == w1 * w1 and exact(r[1][1], {(): Fraction(1)})
+                        if not ok:
+                            b.fail(Failure("default-spaces", f"what=norm-inverse how={mname} dim={dim} a={xb}", dict(kind="ga-default", how=mname, dim=dim, a=xb, op="inv"),
+                                           expected="exact Fraction norm, inverse * blade == 1 exactly", actual=outcome.describe(r)[:200], functions=["norm_squared", "inv", "_shared_metric_coeff"]))
     return b
 
 
